@@ -230,3 +230,211 @@ Proof.
   replace (2 * 0) with 0 by ring. rewrite cos_0, sin_0.
   split; [f_equal; ring | split; [split; [reflexivity | split; lra] | f_equal; ring]].
 Qed.
+
+(* ================================================================================================
+   Round 3 additions: what the fit returns OUTSIDE the identifiable domain.
+     fit_reproduces_matrix    for ANY polar pair (U proper rotation, P symmetric) the returned
+                              (rotation, C10, C12, phi12) reproduce the fitted matrix U·P exactly
+     fit_equivalent           hence for ANY rotation angle, ANY phi12, either sign of C10 and
+                              0 <= C12 < |C10| the fitted set is an equivalent description of the
+                              generating one (same shift matrix, fit_predicts_same_shifts: same
+                              lateral shifts at every frequency)
+     fit_extracts_weak        pure defocus (C12 = 0) allowed: rotation, C10, C12 returned exactly
+     fit_large_angle(_neg)    PI/2 < |theta| <= PI: rotation theta -+ PI and -C10, C12 *)
+From Coq Require Import ZArith.
+Open Scope R_scope.
+(* ------------------------------------------------------------------ periodicity of rem *)
+Lemma cos_sin_period_Z (x : R) (z : Z) :
+  cos (x + 2 * IZR z * PI) = cos x /\ sin (x + 2 * IZR z * PI) = sin x.
+Proof.
+  destruct (Z_le_gt_dec 0 z) as [Hz | Hz].
+  - rewrite <- (Z2Nat.id z Hz), <- INR_IZR_INZ. split; [apply cos_period | apply sin_period].
+  - assert (Hn : (0 <= - z)%Z) by lia.
+    replace x with ((x + 2 * IZR z * PI) + 2 * INR (Z.to_nat (- z)) * PI) at 2 4.
+    + split; [symmetry; apply cos_period | symmetry; apply sin_period].
+    + rewrite INR_IZR_INZ, (Z2Nat.id _ Hn), opp_IZR. ring.
+Qed.
+
+Lemma cos_sin_rem (x : R) : cos (rem x (2 * PI)) = cos x /\ sin (rem x (2 * PI)) = sin x.
+Proof.
+  unfold rem.
+  replace (x - 2 * PI * IZR (Int_part (x / (2 * PI)))) with (x + 2 * IZR (- Int_part (x / (2 * PI))) * PI)
+    by (rewrite opp_IZR; ring).
+  apply cos_sin_period_Z.
+Qed.
+
+(* a proper rotation is R(theta0)^T for theta0 = - atan2 (u10, u00) *)
+Lemma proper_rotation_form (U : mat2) :
+  orthogonal U -> mdet U = 1 ->
+  U = mT (rot (rot0 U)).
+Proof.
+  destruct U as [a b c d]. unfold orthogonal, mdet, mmul, mT, mI, rot0, rot; cbn [m00 m01 m10 m11].
+  intros HU Hd. injection HU as U1 U2 U3 U4.
+  assert (Ed : d = a) by nsatz. assert (Eb : b = - c) by nsatz. subst d b.
+  destruct (polar_atan2 a c) as [Hc Hs].
+  assert (Hn : sqrt (a * a + c * c) = 1).
+  { replace (a * a + c * c) with 1 by lra. apply sqrt_1. }
+  rewrite Hn in Hc, Hs. rewrite cos_neg, sin_neg.
+  apply mat2_eq; cbn [m00 m01 m10 m11]; lra.
+Qed.
+
+(* reading a symmetric matrix as (C10, C12, phi12) loses nothing *)
+Lemma astig_of_symmetric (A : mat2) :
+  symmetric A ->
+  astig_matrix (fit_C10_spec A)
+               (sqrt (fit_C12a_spec A * fit_C12a_spec A + fit_C12b_spec A * fit_C12b_spec A))
+               (atan2 (fit_C12b_spec A) (fit_C12a_spec A) / 2) = A.
+Proof.
+  destruct A as [a b' b c]. unfold symmetric, astig_matrix, fit_C10_spec, fit_C12a_spec, fit_C12b_spec;
+    cbn [m00 m01 m10 m11]. intros ->.
+  set (x := (a - c) / 2). set (y := (b + b) / 2).
+  replace (2 * (atan2 y x / 2)) with (atan2 y x) by field.
+  destruct (polar_atan2 x y) as [Hc Hs]. rewrite Hc, Hs. subst x y.
+  apply mat2_eq; cbn [m00 m01 m10 m11]; field.
+Qed.
+
+Lemma symmetric_mopp (A : mat2) : symmetric A -> symmetric (mopp A).
+Proof. unfold symmetric, mopp; cbn [m00 m01 m10 m11]. intros ->. reflexivity. Qed.
+
+Lemma mT_rot_shift_PI (t : R) : mT (rot (rem t (2 * PI) - PI)) = mopp (mT (rot t)).
+Proof.
+  destruct (cos_sin_rem t) as [Hc Hs].
+  unfold mT, rot, mopp; cbn [m00 m01 m10 m11].
+  unfold Rminus. rewrite cos_plus, sin_plus, cos_neg, sin_neg, cos_PI, sin_PI, Hc, Hs.
+  apply mat2_eq; cbn [m00 m01 m10 m11]; ring.
+Qed.
+
+(* the parameters returned by the fit ALWAYS reproduce the fitted linear map, whenever its
+   orthogonal polar factor is a proper rotation (no domain restriction on angles or signs) *)
+Lemma fit_reproduces_matrix (U P : mat2) :
+  orthogonal U -> mdet U = 1 -> symmetric P ->
+  shift_M (fit_rotation_angle U P) (fit_C10 U P) (fit_C12 U P) (fit_phi12 U P) = mmul U P.
+Proof.
+  intros HU Hd HP. destruct (fit_reads U P) as (-> & -> & -> & ->).
+  pose proof (proper_rotation_form U HU Hd) as EU.
+  unfold shift_M, fit_rotation_spec, fit_matrix_spec.
+  destruct (Rlt_dec PI (flip_test U)) as [Hf | Hf]; cbv iota.
+  - rewrite astig_of_symmetric by now apply symmetric_mopp.
+    rewrite mT_rot_shift_PI, <- EU. apply mmul_opp_opp.
+  - rewrite astig_of_symmetric by exact HP. rewrite <- EU. reflexivity.
+Qed.
+
+Lemma mdet_mT_rot (t : R) : mdet (mT (rot t)) = 1 /\ mdet (mopp (mT (rot t))) = 1.
+Proof.
+  unfold mdet, mT, rot, mopp; cbn [m00 m01 m10 m11].
+  pose proof (sin2_cos2 t) as H. unfold Rsqr in H. split; nra.
+Qed.
+
+(* ANY rotation angle, ANY astigmatism angle, either sign of C10, C12 = 0 allowed: the fitted set is
+   an equivalent description (same shift matrix) of the generating one *)
+Lemma fit_equivalent (theta C10 C12 p : R) (U P : mat2) :
+  0 <= C12 < Rabs C10 ->
+  orthogonal U -> psd P -> mmul U P = shift_M theta C10 C12 p ->
+  shift_M (fit_rotation_angle U P) (fit_C10 U P) (fit_C12 U P) (fit_phi12 U P) = shift_M theta C10 C12 p.
+Proof.
+  intros HC HU HP HM. rewrite <- HM.
+  destruct (astig_definite C10 C12 p HC) as [Dpos Dneg].
+  destruct (rot_orthogonal theta) as [_ Hrot].
+  destruct (mdet_mT_rot theta) as [D1 D2].
+  apply fit_reproduces_matrix; [exact HU | | exact (proj1 HP)].
+  unfold shift_M in HM.
+  destruct (Rlt_dec 0 C10) as [Hs | Hs].
+  - destruct (polar_unique U P _ _ HU HP Hrot (Dpos Hs) HM) as [-> _]. exact D1.
+  - assert (Hneg : C10 < 0).
+    { destruct (Req_dec C10 0) as [-> | Hne]; [rewrite Rabs_R0 in HC; lra | lra]. }
+    destruct (polar_unique_neg U P _ _ HU HP Hrot (Dneg Hneg) HM) as [-> _]. exact D2.
+Qed.
+
+(* hence the shifts predicted from the fitted parameters are the shifts that were fitted *)
+Lemma fit_predicts_same_shifts (theta C10 C12 p : R) (U P : mat2) (lambda kx0 ky0 : R) :
+  0 <= C12 < Rabs C10 ->
+  orthogonal U -> psd P -> mmul U P = shift_M theta C10 C12 p ->
+  lateral_shift_x (env3 (fit_C10 U P) (fit_C12 U P) (fit_phi12 U P)) (fit_rotation_angle U P) lambda kx0 ky0
+    = lateral_shift_x (env3 C10 C12 p) theta lambda kx0 ky0 /\
+  lateral_shift_y (env3 (fit_C10 U P) (fit_C12 U P) (fit_phi12 U P)) (fit_rotation_angle U P) lambda kx0 ky0
+    = lateral_shift_y (env3 C10 C12 p) theta lambda kx0 ky0.
+Proof.
+  intros HC HU HP HM.
+  destruct (shift_matrix (fit_C10 U P) (fit_C12 U P) (fit_phi12 U P) (fit_rotation_angle U P) lambda kx0 ky0) as [-> ->].
+  destruct (shift_matrix C10 C12 p theta lambda kx0 ky0) as [-> ->].
+  rewrite (fit_equivalent theta C10 C12 p U P HC HU HP HM). split; reflexivity.
+Qed.
+
+(* pure defocus allowed (C12 = 0): rotation, C10 and C12 are still returned exactly *)
+Lemma fit_extracts_weak (theta C10 C12 p : R) (U P : mat2) :
+  - (PI / 2) < theta < PI / 2 -> 0 <= C12 < Rabs C10 ->
+  orthogonal U -> psd P -> mmul U P = shift_M theta C10 C12 p ->
+  fit_rotation_angle U P = theta /\ fit_C10 U P = C10 /\ fit_C12 U P = C12.
+Proof.
+  intros Ht HC HU HP HM. pose proof PI_RGT_0 as Hpi.
+  destruct (fit_reads U P) as (-> & -> & -> & _).
+  destruct (astig_definite C10 C12 p HC) as [Dpos Dneg].
+  destruct (rot_orthogonal theta) as [_ Hrot].
+  destruct (astig_read C10 C12 p) as (R1 & R2 & R3).
+  assert (Hfin : fit_rotation_spec U = theta /\ fit_matrix_spec U P = astig_matrix C10 C12 p).
+  { unfold shift_M in HM.
+    destruct (Rlt_dec 0 C10) as [Hs | Hs].
+    - destruct (polar_unique U P _ _ HU HP Hrot (Dpos Hs) HM) as [-> ->].
+      destruct (flip_pos theta Ht) as [Hn E].
+      unfold fit_rotation_spec, fit_matrix_spec.
+      destruct (Rlt_dec PI _) as [Hc | _]; [contradiction |]. split; [exact E | reflexivity].
+    - assert (Hneg : C10 < 0).
+      { destruct (Req_dec C10 0) as [-> | Hne]; [rewrite Rabs_R0 in HC; lra | lra]. }
+      destruct (polar_unique_neg U P _ _ HU HP Hrot (Dneg Hneg) HM) as [-> ->].
+      destruct (flip_neg theta Ht) as [Hy E].
+      unfold fit_rotation_spec, fit_matrix_spec.
+      destruct (Rlt_dec PI _) as [_ | Hc]; [| contradiction]. split; [exact E | apply mopp_mopp]. }
+  destruct Hfin as [-> ->]. rewrite R1, R2, R3.
+  split; [reflexivity | split; [reflexivity |]].
+  apply sqrt_polar. lra.
+Qed.
+
+(* outside |theta| < PI/2 the returned rotation is theta -+ PI and the coefficient matrix is negated:
+   (C10, C12, phi12) -> (-C10, C12, phi12 +- PI/2); stated on the matrix *)
+Lemma fit_large_angle (theta C10 C12 p : R) (U P : mat2) :
+  PI / 2 < theta <= PI -> 0 <= C12 < Rabs C10 ->
+  orthogonal U -> psd P -> mmul U P = shift_M theta C10 C12 p ->
+  fit_rotation_angle U P = theta - PI /\ fit_C10 U P = - C10 /\ fit_C12 U P = C12.
+Proof.
+  intros Ht HC HU HP HM. pose proof PI_RGT_0 as Hpi.
+  assert (HM' : mmul U P = shift_M (theta - PI) (- C10) C12 (p + PI / 2)).
+  { rewrite HM. unfold shift_M, astig_matrix, mmul, mT, rot; cbn [m00 m01 m10 m11].
+    replace (2 * (p + PI / 2)) with (2 * p + PI) by field.
+    unfold Rminus. rewrite !cos_plus, !sin_plus, cos_neg, sin_neg, cos_PI, sin_PI.
+    apply mat2_eq; cbn [m00 m01 m10 m11]; ring. }
+  destruct (Rle_dec theta PI) as [Hle | Hgt]; [| lra].
+  destruct (Req_dec theta PI) as [-> | Hne].
+  - (* theta = PI: theta - PI = 0 *)
+    apply (fit_extracts_weak (PI - PI) (- C10) C12 (p + PI / 2)); try assumption.
+    + lra.
+    + rewrite Rabs_Ropp. exact HC.
+  - apply (fit_extracts_weak (theta - PI) (- C10) C12 (p + PI / 2)); try assumption.
+    + lra.
+    + rewrite Rabs_Ropp. exact HC.
+Qed.
+
+Lemma fit_large_angle_neg (theta C10 C12 p : R) (U P : mat2) :
+  - PI <= theta < - (PI / 2) -> 0 <= C12 < Rabs C10 ->
+  orthogonal U -> psd P -> mmul U P = shift_M theta C10 C12 p ->
+  fit_rotation_angle U P = theta + PI /\ fit_C10 U P = - C10 /\ fit_C12 U P = C12.
+Proof.
+  intros Ht HC HU HP HM. pose proof PI_RGT_0 as Hpi.
+  assert (HM' : mmul U P = shift_M (theta + PI) (- C10) C12 (p + PI / 2)).
+  { rewrite HM. unfold shift_M, astig_matrix, mmul, mT, rot; cbn [m00 m01 m10 m11].
+    replace (2 * (p + PI / 2)) with (2 * p + PI) by field.
+    rewrite !cos_plus, !sin_plus, cos_PI, sin_PI.
+    apply mat2_eq; cbn [m00 m01 m10 m11]; ring. }
+  apply (fit_extracts_weak (theta + PI) (- C10) C12 (p + PI / 2)); try assumption.
+  - lra.
+  - rewrite Rabs_Ropp. exact HC.
+Qed.
+
+(* non-vacuity of fit_equivalent outside the identifiable domain: theta = PI, C10 = -2, C12 = 0 *)
+Lemma fit_equivalent_nonvacuous :
+  exists U P, orthogonal U /\ psd P /\ mmul U P = shift_M PI (-2) 0 0.
+Proof.
+  exists mI, (mk2 2 0 0 2).
+  unfold orthogonal, psd, symmetric, mtr, mdet, shift_M, astig_matrix, mmul, mT, mI, rot; simpl.
+  rewrite cos_PI, sin_PI.
+  split; [f_equal; ring | split; [split; [reflexivity | split; lra] | f_equal; ring]].
+Qed.
